@@ -13,12 +13,9 @@ import (
 	"fmt"
 	"sort"
 	"strings"
-	"sync"
 
 	"github.com/honeycombio/refinery/config"
-	"github.com/honeycombio/refinery/internal/peer"
 	"github.com/honeycombio/refinery/logger"
-	"github.com/honeycombio/refinery/metrics"
 	"github.com/honeycombio/refinery/sharder"
 
 	"verif/engine/enumx"
@@ -76,16 +73,19 @@ func addrs(ix []int) []string {
 // build a real, started sharder for the node `self` seeing `list`.
 func build(k kase) (*sharder.DeterministicSharder, error) {
 	cfg := &config.MockConfig{GetPeerListenAddrVal: "0.0.0.0:" + port, PeerManagementType: "file", RedisIdentifier: idents[k.self]}
-	var peers peer.Peers
-	var mock *peer.MockPeers
+	s := &sharder.DeterministicSharder{Config: cfg, Logger: &logger.NullLogger{}}
+	mock := sharder.VerifC17MockPeers(nil, "")
 	switch k.kind {
 	case "mock":
 		first := k.list
 		if k.prior != nil {
 			first = k.prior
 		}
-		mock = peer.NewMockPeers(addrs(first), addr(k.self))
-		peers = mock
+		mock = sharder.VerifC17MockPeers(addrs(first), addr(k.self))
+		if err := mock.Start(); err != nil {
+			return nil, err
+		}
+		s.Peers = mock
 	case "file":
 		// documented form: Peers lists the other nodes; FilePeers appends this node's public address.
 		var others []string
@@ -95,16 +95,12 @@ func build(k kase) (*sharder.DeterministicSharder, error) {
 			}
 		}
 		cfg.GetPeersVal = others
-		fp := &peer.FilePeers{Cfg: cfg, Metrics: &metrics.NullMetrics{}, Logger: &logger.NullLogger{}}
-		if err := fp.Start(); err != nil {
+		fp, err := sharder.VerifC17FilePeers(cfg)
+		if err != nil {
 			return nil, err
 		}
-		peers = fp
+		s.Peers = fp
 	}
-	if err := peers.Start(); err != nil && k.kind == "mock" {
-		return nil, err
-	}
-	s := &sharder.DeterministicSharder{Config: cfg, Logger: &logger.NullLogger{}, Peers: peers}
 	if err := s.Start(); err != nil {
 		return nil, err
 	}
@@ -186,7 +182,6 @@ func main() {
 	// per (list-as-multiset) group: owners[id] as first observed (by the lowest case index -> deterministic),
 	// then every other case of the group is compared with it.
 	type group struct {
-		once   sync.Once
 		owners []string
 		from   kase
 	}
@@ -217,11 +212,6 @@ func main() {
 		}
 		g.from = k
 	}
-
-	// claims[group][idIdx] -> set of node addresses that said "mine" — filled per case, checked afterwards
-	var mu sync.Mutex
-	mine := map[string]map[int]map[string]int{} // group -> self -> (config string -> number of ids claimed); used for stats only
-	_ = mine
 
 	enumx.Each(r, "lists", []int{len(cases)}, 16, func(idx []int) {
 		k := cases[idx[0]]
@@ -283,8 +273,6 @@ func main() {
 		if claimed > 0 && claimed < len(ids) {
 			r.Add("nodes_with_both_mine_and_foreign", 1)
 		}
-		mu.Lock()
-		mu.Unlock()
 	})
 
 	// exactly-one-owner per cluster and ID follows from: one agreed owner per group (checked above on every node),
